@@ -227,6 +227,12 @@ class C18(Prop):
             h, m = rng.randint(0, 12), rng.randint(0, 75)
             forms = [f"{h}h{m}", f"{h}h{m:02d}m", f"{h * 60 + m}", f" {h}h {m} ", f"{h}h", f"{m}m", f"-{h}h{m}",
                      f"{h}hh{m}", f"{h}h{m}h", f"{h}_0h{m}", "٣h٤", f"{h}h{m}.5", f"+{m}", "h", "m", "", f"{h} h {m} m"]
+            if rng.random() < 0.35:
+                # what Python's own number readers accept beyond plain digits, and numbers too big for a float
+                tok = rng.choice(["nan", "NaN", "inf", "-inf", "Infinity", "1e3", "1e999", "1.5", "2.", ".5", "0x1f", "0b11",
+                                  "1_000", "9007199254740993", "9" * rng.randint(17, 30), "9" * 400, "1e-3", "1j", "True",
+                                  "٣.٥", "1e٣", " 2.5 ", "0.0", "-0", "+1.0"])
+                forms = [f"{tok}h", f"{tok}h{m}", f"{h}h{tok}", tok, f"{tok}m", f"{tok}h{m}m", f" {tok} h {m} m"]
             return rng.choice(forms)
         if which == "call":
             segs = []
@@ -355,6 +361,18 @@ class C18(Prop):
             want = sorted(gens.BELLS[:len(req["s"])])
             if sorted(req["s"]) != want:
                 return f"start row {req['s']!r} accepted although it is not a permutation of the first {len(req['s'])} bells"
+        if req["which"] == "peal_speed":
+            # the documented forms, in plain digits: XhYY(m), Xh, NNN(m) - minutes below 60 after an hour value
+            import re
+            m1 = re.fullmatch(r"\s*([0-9]+)\s*h\s*(?:([0-9]+)\s*m?)?\s*", req["s"])
+            m2 = re.fullmatch(r"\s*([0-9]+)\s*m?\s*", req["s"])
+            want = None
+            if m1 and (m1.group(2) is None or int(m1.group(2)) <= 59):
+                want = 60 * int(m1.group(1)) + int(m1.group(2) or 0)
+            elif m2:
+                want = int(m2.group(1))
+            if want is not None and res.get("ok") != want:
+                return f"peal speed {req['s']!r} is {want} minutes as documented, Wheatley made of it {res}"
         if req["which"] == "peal_speed" and "ok" in res and res["ok"] < 0:
             return f"peal speed {req['s']!r} parsed to a negative number"
         return None
